@@ -445,12 +445,60 @@ def gen_textkw():
     return f'{len(rules)} text-matching rules, {len(seen)} literals'
 
 
+# --------------------------------------------------------------------------------------------
+# RenderKw: every string literal the renderer (plc2plc/src/renderer.rs) appends to its buffer: the arguments of
+#           `write_ws("…")` / `write("…")` and the string results of its match arms (`Variant => "…"`)
+# --------------------------------------------------------------------------------------------
+
+def gen_renderkw():
+    src = read('compiler/plc2plc/src/renderer.rs')
+    code = re.sub(r'(?m)^\s*//[^\n]*', '', src)
+    # the test module is not part of the renderer
+    cut = re.search(r'#\[cfg\(test\)\]', code)
+    if cut: code = code[:cut.start()]
+    # scan the code once, string literal by string literal (an operator such as `=>` inside a literal is text, not code)
+    lits = []
+    i, n = 0, len(code)
+    while i < n:
+        c = code[i]
+        if c == '"' or (c == 'r' and code.startswith(('r"', 'r#"'), i) and not (i and (code[i - 1].isalnum() or code[i - 1] == '_'))):
+            text, j = rust_string(code, i)
+            before = code[max(0, i - 40):i].rstrip()
+            if re.search(r'\bwrite_ws\($', before): lits.append(('write_ws', '', text))
+            elif re.search(r'\bwrite\($', before): lits.append(('write', '', text))
+            elif before.endswith('=>'):
+                mv = re.search(r'(\w+::\w+)\s*=>$', before)
+                lits.append(('arm', mv.group(1) if mv else '', text))
+            i = j
+        elif c == "'":
+            # a char literal ('x', '\\n', '\\'') or a lifetime ('a)
+            m = re.match(r"'(?:\\.|[^'\\])'", code[i:])
+            i += m.end() if m else 1
+        else:
+            i += 1
+    if len(lits) < 50: raise ValueError(f'only {len(lits)} literals recognised in renderer.rs')
+    seen = []
+    for x in lits:
+        if x not in seen: seen.append(x)
+    out = ['-- GENERATED by translator/gen_tables.py from compiler/plc2plc/src/renderer.rs; do not edit',
+           'namespace Gen',
+           '/-- every string literal the renderer writes: how (`write_ws`, `write`, result of a match `arm`), the enum variant',
+           'the arm matches (`Enum::Variant`, empty otherwise) and the text -/',
+           'def renderLits : List (String × String × String) := [',
+           ',\n'.join(f'  ("{k}", "{a}", {lean_str(v)})' for k, a, v in seen),
+           ']',
+           'end Gen']
+    write_if_changed('RenderKw.lean', '\n'.join(out) + '\n')
+    return f'{len(seen)} literals ({sum(1 for x in seen if x[0] != "arm")} written directly, {sum(1 for x in seen if x[0] == "arm")} from match arms)'
+
+
 TABLES = {
     'Tokens': gen_tokens,
     'Prec': gen_prec,
     'Legend': gen_legend,
     'Stages': gen_stages,
     'TextKw': gen_textkw,
+    'RenderKw': gen_renderkw,
 }
 
 
